@@ -35,12 +35,15 @@ MIN_NONTRIVIAL = 1000
 REQUIRED_COUNTERS = ["pipelines_rendered", "placements_rendered", "spellings_rendered", "n_flag_cases", "markup_idempotence_cases"]
 RULE += "; a third of the pipeline batches and half of the placements rendered under strict_undefined=True (flag names are not names); n inside filter= attributes"
 REQUIRED_COUNTERS += ["pipelines_under_strict_undefined", "placements_under_strict_undefined"]
+RULE += "; a quarter of the pipeline batches and a third of the placements built by a TemplateLookup that carries default_filters / buffer_filters / strict_undefined"
+REQUIRED_COUNTERS += ["pipelines_through_a_lookup", "placements_through_a_lookup"]
 
 _st = {}
 MODULE_BLOCK = (
     "<%!\n"
     "def f(s):\n    return 'f(' + str(s) + ')'\n"
     "def g(s):\n    return 'g(' + str(s) + ')'\n"
+    "def ty(s):\n    return type(s).__name__ + ':' + str(s)\n"
     "def mk(*a, **k):\n"
     "    tag = 'mk[' + ','.join([str(x) for x in a] + ['%s=%s' % kv for kv in sorted(k.items())]) + ']'\n"
     "    return lambda s: tag + '(' + str(s) + ')'\n"
@@ -55,7 +58,17 @@ def cf(s):
 def setup_worker():
     from mako.template import Template
 
+    from mako.lookup import TemplateLookup
+
     _st["Template"] = Template
+    _st["TemplateLookup"] = TemplateLookup
+
+
+def via_lookup(text, **kw):
+    """the same template, built by a TemplateLookup that carries the filter configuration"""
+    lk = _st["TemplateLookup"](**kw)
+    lk.put_string("/p.html", text)
+    return lk.get_template("/p.html")
 
 
 # ------------------------------------------------------------------ reference implementations
@@ -71,6 +84,9 @@ def apply_one(name, val):
     v, mk = val
     if name in ("f", "g", "cf"):
         return ("%s(%s)" % (name, v if isinstance(v, str) else str(v)), False)
+    if name == "ty":
+        # shows what it was handed: the value as passed (default_filters=[]), a str, or markup
+        return ("%s:%s" % ("Markup" if mk else type(v).__name__, v), False)
     if name.startswith("mk("):
         inner = name[3:-1]
 
@@ -132,7 +148,7 @@ VALUES = {
     "p": "plain",
     "z": None,  # h is markupsafe.escape: None comes out as the text 'None', like any other object
 }
-EFILTERS = ["h", "x", "u", "trim", "entity", "str", "unicode", "decode.utf8", "n", "f", "g", "cf", "mk('|')", "mk(a=1)",
+EFILTERS = ["h", "x", "u", "trim", "entity", "str", "unicode", "decode.utf8", "n", "f", "g", "cf", "ty", "mk('|')", "mk(a=1)",
             # brace literals as arguments of a filter call: the filter list does not end at their closing brace
             "mk({'a': 1})", "mk({2}, k={})"]
 DEFAULTS = [None, ["str"], [], ["f"], ["f", "g"], ["h"], ["str", "trim"]]
@@ -146,6 +162,9 @@ def build_expr_template(D, P, exprs):
 
 def run_pipelines(case, res):
     T = _st["Template"]
+    if case.get("lookup"):
+        T = via_lookup
+        res.count("pipelines_through_a_lookup", len(case["items"]))
     D, P = case["D"], case["P"]
     effD = ["str"] if D is None else D
     effP = P or []
@@ -176,7 +195,7 @@ def run_pipelines(case, res):
             singles.append((E, vname, spell))
             exp_parts.append(None)
             res.count("not_asserted_type_errors")
-    rc = {"kind": "pipelines", "D": D, "P": P, "items": case["items"], "strict": bool(case.get("strict"))}
+    rc = {"kind": "pipelines", "D": D, "P": P, "items": case["items"], "strict": bool(case.get("strict")), "lookup": bool(case.get("lookup"))}
     if not singles:
         res.evaluations += len(items)
         res.count("pipelines_rendered", len(items))
@@ -214,21 +233,24 @@ def note(res, part, D, P):
 def judge_single(T, kw, D, P, part, res, rc):
     exp, nf, E, vname, spell = part
     text = build_expr_template(D, P, [spell])
-    what = "default_filters=%r page expression_filter=%r%s expression %s with %s=%r" % (D, P, " strict_undefined=True" if kw.get("strict_undefined") else "", spell, vname, VALUES[vname])
+    what = ("through a TemplateLookup, " if rc.get("lookup") else "") + "default_filters=%r page expression_filter=%r%s expression %s with %s=%r" % (D, P, " strict_undefined=True" if kw.get("strict_undefined") else "", spell, vname, VALUES[vname])
     try:
         out = T(text, **kw).render_unicode(cf=cf, **VALUES)
     except Exception as e:
         res.violate("pipeline-raises", "%s raised %s: %s; expected %r" % (what, type(e).__name__, e, exp), witness=what,
-                    replay_case={"kind": "pipelines", "D": D, "P": P, "items": [[E, vname]], "strict": rc["strict"]})
+                    replay_case={"kind": "pipelines", "D": D, "P": P, "items": [[E, vname]], "strict": rc["strict"], "lookup": rc["lookup"]})
         return
     if out != exp:
         res.violate("pipeline-order", "%s rendered %r, expected %r" % (what, out, exp), witness=what,
-                    replay_case={"kind": "pipelines", "D": D, "P": P, "items": [[E, vname]], "strict": rc["strict"]})
+                    replay_case={"kind": "pipelines", "D": D, "P": P, "items": [[E, vname]], "strict": rc["strict"], "lookup": rc["lookup"]})
 
 
 # ------------------------------------------------------------------ placements
 def run_placements(case, res):
     T = _st["Template"]
+    if case.get("lookup"):
+        T = via_lookup
+        res.count("placements_through_a_lookup")
     F, BF, D, callE = case["F"], case["BF"], case["D"], case["E"]
     effD = ["str"] if D is None else D
     body = " <i>&\"x\" "
@@ -405,11 +427,11 @@ def gen_cases(tier, seed):
                     items.append([E, vname])
                     if len(items) >= 60:
                         nth += 1
-                        yield {"kind": "pipelines", "D": D, "P": P, "items": items, "strict": nth % 3 == 0}
+                        yield {"kind": "pipelines", "D": D, "P": P, "items": items, "strict": nth % 3 == 0, "lookup": nth % 4 == 1}
                         items = []
             if items:
                 nth += 1
-                yield {"kind": "pipelines", "D": D, "P": P, "items": items, "strict": nth % 3 == 0}
+                yield {"kind": "pipelines", "D": D, "P": P, "items": items, "strict": nth % 3 == 0, "lookup": nth % 4 == 1}
     # (`n` in a filter= attribute is a flag without effect there: no default filters to switch off)
     FL = [[], ["f"], ["f", "g"], ["h"], ["h", "f"], ["trim", "f"], ["g", "x"], ["mk('|')", "f"], ["n"], ["n", "f"], ["u", "n", "entity"]]
     BFL = [[], ["g"], ["f", "g"], ["trim"]]
@@ -418,7 +440,7 @@ def gen_cases(tier, seed):
             for D in (None, [], ["f"], ["h"]):
                 for E in ([], ["g"], ["n"], ["n", "f"], ["h"]):
                     nth += 1
-                    yield {"kind": "placements", "F": F, "BF": BF, "D": D, "E": E, "strict": nth % 2 == 0}
+                    yield {"kind": "placements", "F": F, "BF": BF, "D": D, "E": E, "strict": nth % 2 == 0, "lookup": nth % 3 == 0}
     flt = [[], ["f"], ["f", "g"], ["n", "h"], ["mk('|')"], ["mk('}', ')')", "f"], ["trim", "mk(a=1)"]]
     for i in range(0, len(SPELLINGS), 4):
         yield {"kind": "scanner", "spellings": SPELLINGS[i : i + 4], "filters": flt}
